@@ -20,6 +20,7 @@ CHECKS = {
  "C11": ("TLC model checking of spec/IvWait.tla composed with MonSig + simulated child processes (pid reuse, strangers, exit-before-fork-returns) on the real code, traces validated against MonSig rules C11:*", "4/C11"),
  "C12": ("TLC model checking of spec/IvWork.tla (exactly-once, max concurrency, no stranded work, liveness) + schedule enumeration / random schedules with 10 s time jumps on the real pool, traces validated against MonWork rules C12:*", "4/C12"),
  "C13": ("TLC model checking of spec/IvWork.tla (release only when drained, hooks paired, liveness Released) + real pool shutdown / iv_thread exit scenarios, traces validated against MonWork rules C13:*", "4/C13"),
+ "C17": ("TLC model checking of spec/IvPump.tla composed with MonPump (BufSize 4, both modes, RELAY_EOF on/off), BFS-complete spec-generated environment programs + random chunkings replayed on the real pump with scripted read/write/splice results, traces validated by TLC (TracePump: MonPump verdicts + lock-step on bytes/full/saw_fin)", "4/C17"),
  "C19": ("TLC model checking of spec/IvPopen.tla (three child policies, liveness Terminates) composed with MonSig + simulated children and virtual time on the real code, traces validated against MonSig rules C19:*", "4/C19"),
 }
 LEVEL = {"C15": "fault_enumeration"}
@@ -32,7 +33,7 @@ m = {
            "source_commits": [], "add_only": True},
  "engines": [{"name": "tlc-trace-validation", "path": "spec/TraceCore.tla", "serves_properties": sorted(CHECKS),
               "kind_free_text": "TLA+ monitors (spec/MonCore.tla, MonWork.tla, MonSig.tla via spec/TraceAll.tla) evaluated by TLC on ndjson traces recorded from the real library under the virtual kernel"},
-             {"name": "tlc-model-checking", "path": "spec/", "serves_properties": ["C08", "C09", "C10", "C11", "C12", "C13", "C19"],
+             {"name": "tlc-model-checking", "path": "spec/", "serves_properties": ["C08", "C09", "C10", "C11", "C12", "C13", "C17", "C19"],
               "kind_free_text": "TLC exhaustive model checking of the implementation-shaped system models IvEvent, IvRaw, IvWork, IvSignal, IvWait, IvPopen"}],
  "checks": [], "not_applicable": [],
  "notes": "bin/check <id> --tier quick|thorough; see DESIGN.md",
